@@ -209,7 +209,7 @@ theorem addr_spec (hl : ∀ k m, (lv.hmac k m).length = 20) (hl8 : 0 < (cfg.l * 
     ∃ kb : Bytes, ∀ (w : Bytes) (j a : Nat), addr cfg lv K1 w (j : Int) = .ok a →
       ∃ out : Bitset, out.value = a ∧ out.length = (cfg.l * 8).toNat + cfg.bitsNM ∧ j < 2 ^ cfg.bitsNM ∧
         ffxDecrypt (ffxRound lv.hmac 20 kb) DEFAULT_ROUNDS out =
-          .ok ⟨fromBE w * 2 ^ cfg.bitsNM + j, (cfg.l * 8).toNat + cfg.bitsNM⟩ := by
+          .ok ⟨fromBE w * 2 ^ cfg.bitsNM + j, (cfg.l * 8).toNat + cfg.bitsNM⟩ ∧ out.WF := by
   cases hkey : Bitset.ofBytes K1 (cfg.k * 8).toNat with
   | error e =>
     refine ⟨[], ?_⟩
@@ -268,15 +268,15 @@ theorem addr_spec (hl : ∀ k m, (lv.hmac k m).length = 20) (hl8 : 0 < (cfg.l * 
               cases hout
               have hm_eq : msg = ⟨fromBE w * 2 ^ cfg.bitsNM + j, (cfg.l * 8).toNat + cfg.bitsNM⟩ := by
                 cases msg; simp only at hmv hml; subst hmv; subst hml; rfl
-              exact ⟨out, rfl, by rw [hol, hml], hjlt, by rw [← hm_eq]; exact hd⟩
+              exact ⟨out, rfl, by rw [hol, hml], hjlt, by rw [← hm_eq]; exact hd, how⟩
 
 /-- distinct (keyword, counter) pairs have distinct addresses — keywords without a leading NUL byte -/
 theorem addr_inj (hl : ∀ k m, (lv.hmac k m).length = 20) (hl8 : 0 < (cfg.l * 8).toNat) (hbits : 0 < cfg.bitsNM) (K1 : Bytes)
     (w w' : Bytes) (j j' a : Nat) (hw : NoLeadingNul w) (hw' : NoLeadingNul w')
     (h : addr cfg lv K1 w (j : Int) = .ok a) (h' : addr cfg lv K1 w' (j' : Int) = .ok a) : w = w' ∧ j = j' := by
   obtain ⟨kb, hkb⟩ := addr_spec cfg lv hl hl8 hbits K1
-  obtain ⟨o, ov, ol, jl, od⟩ := hkb w j a h
-  obtain ⟨o', ov', ol', jl', od'⟩ := hkb w' j' a h'
+  obtain ⟨o, ov, ol, jl, od, _⟩ := hkb w j a h
+  obtain ⟨o', ov', ol', jl', od', _⟩ := hkb w' j' a h'
   have : o = o' := by
     cases o; cases o'
     simp only at ov ov' ol ol'
